@@ -31,9 +31,13 @@ TECHNIQUE = (
 )
 LEVEL_TEXT = (
     "Fault enumeration: command kind x exit kind x lifecycle point is enumerated completely in both tiers (3 x (1 + 9 x 5) = "
-    "138 combinations); hooks (5 pre x 5 post) and artifacts dir / database / lock file on/off are laid over them as a "
-    "pairwise (plus selected 3-way) covering array in the quick tier and as all 8 resource combinations x a rotating Latin "
-    "selection of hook pairs in the thorough tier. One fault per run; held means held for the runs executed."
+    "138 combinations). Quick: each combination once with non-failing hooks {none, ok, noisy} and artifacts dir / database / "
+    "lock file chosen by a seeded greedy covering array (all factor pairs plus selected triples), then about 30 rows with a "
+    "failing pre- or post-hook until every pair with a failing hook is covered (about 166 runs). Thorough: every combination "
+    "x all 8 resource settings x 5 hook pairs (a rotating diagonal of the non-failing 3x3 hook square, one failing pre-hook, "
+    "one failing post-hook; 5520 runs; VERIF_C15_FULL=1 runs all 25 hook pairs). One fault per run; held means held for the "
+    "runs executed. A child that exceeds the watchdog is re-run; it is a finding only if it hangs again and the thread stacks "
+    "it dumped show no harness frame, otherwise the verdict is inconclusive."
 )
 LEVEL_NOTE = (
     "Trusted: the exit-code table and artefact oracle in vf/checks/c15.py, sqlite3, zstandard, the kernel's flock. The child "
@@ -47,8 +51,8 @@ RULE = (
     "super().setup(), main, teardown before/after super().teardown()}) x pre-hook x post-hook in {none, ok, fail (exit 3, "
     "silent), failnoisy (output + exit 1), noisy (>64 KiB output)} x artifacts dir on/off x database on/off x lock file "
     "on/off; kind x exit x point is the full product, the other factors follow a seeded covering array (quick) or the full "
-    "resource product with a rotating selection of hook pairs (thorough); non-trivial = anything but a fault-free run "
-    "without hooks and resources; distinct = distinct case tuples"
+    "resource product with 5 of the 25 hook pairs (thorough); non-trivial = anything but a fault-free run without hooks and "
+    "resources; distinct = distinct case tuples"
 )
 ASSUMPTIONS = [
     "the child reproduces gallia.cli.gallia's main: setup_logging(logger_name='') then asyncio.run(cmd.entry_point()) and sys.exit of the result",
@@ -77,6 +81,7 @@ DOMAINS: dict[str, list[Any]] = {
 CHILD_TIMEOUT = 45.0
 SIGINT_READY_TIMEOUT = 20.0
 STACK_DUMP_BEFORE_KILL = 8.0
+RETRY_TIMEOUT = 25.0
 CLASS_NAMES = {"script": "C15Script", "scanner": "C15Scanner", "uds": "C15UDSScanner"}
 
 HOOK_SH = r"""#!/bin/sh
@@ -505,7 +510,7 @@ def child_main(specfile: str) -> None:
     # if the parent's watchdog is about to fire, leave the stacks of all threads behind: that is what tells a
     # command that hangs from a harness that hangs
     stacks = open(paths["out"] / "stacks", "w")  # noqa: SIM115
-    faulthandler.dump_traceback_later(CHILD_TIMEOUT - STACK_DUMP_BEFORE_KILL, file=stacks, exit=False)
+    faulthandler.dump_traceback_later(float(os.environ.get("C15_DUMP_AFTER", CHILD_TIMEOUT - STACK_DUMP_BEFORE_KILL)), file=stacks, exit=False)
     define_commands()
     from gallia.log import Loglevel, setup_logging
 
@@ -566,7 +571,7 @@ def zstd_closed(path: Path) -> tuple[bool, int]:
     return True, total
 
 
-def execute(spec: dict[str, Any], rundir: Path) -> dict[str, Any]:
+def execute(spec: dict[str, Any], rundir: Path, timeout: float = CHILD_TIMEOUT) -> dict[str, Any]:
     import fcntl
 
     paths = run_paths(rundir)
@@ -579,6 +584,7 @@ def execute(spec: dict[str, Any], rundir: Path) -> dict[str, Any]:
     env.update({
         "C15_OUT": str(paths["out"]), "C15_LOCK": str(paths["lock"]) if spec["lock"] else "", "TMPDIR": str(rundir / "tmp"),
         "PYTHONDONTWRITEBYTECODE": "1", "VERIF_REPO": os.environ.get("VERIF_REPO", "/repo"),
+        "C15_DUMP_AFTER": str(timeout - STACK_DUMP_BEFORE_KILL),
     })
     for k in ("PYTHONPATH", "GALLIA_CONFIG", "GALLIA_LOGLEVEL"):
         env.pop(k, None)
@@ -611,7 +617,7 @@ def execute(spec: dict[str, Any], rundir: Path) -> dict[str, Any]:
                     proc.send_signal(signal.SIGINT)
                     obs["sigint_delivered"] = True
             try:
-                proc.wait(timeout=CHILD_TIMEOUT)
+                proc.wait(timeout=timeout)
             except subprocess.TimeoutExpired:
                 obs["watchdog"] = True
         finally:
@@ -926,6 +932,18 @@ def judge(spec: dict[str, Any], obs: dict[str, Any], rundir: Path, reach: Any = 
 # =================================================================================================
 # shard
 # =================================================================================================
+def hang_blame(obs: dict[str, Any]) -> str:
+    """'command' iff the child had built the command and no thread sits in harness code (fault injector, virtual ECU
+    start-up) other than the frames that merely call asyncio.run(entry_point()) / serve the ECU socket."""
+    st = obs.get("stacks") or ""
+    if not obs.get("started") or "most recent call first" not in st:
+        return "unknown"
+    for ln in st.splitlines():
+        if "vf/checks/c15.py" in ln and not any(f" in {fn}" in ln for fn in ("child_main", "<module>", "body", "serve")):
+            return "harness"
+    return "command"
+
+
 def summarize(obs: dict[str, Any]) -> dict[str, Any]:
     s = {k: obs.get(k) for k in ("rc", "wall", "events", "returned", "escaped", "sigint_delivered", "watchdog", "lock_at_fault",
                                  "lock_after_entry_point", "lock_after_exit", "artifact_dirs", "run_meta", "log", "hook_pre_lock", "hook_post_lock")}
@@ -950,19 +968,28 @@ def process_case(ctx: Any, spec: dict[str, Any], base: Path, lock: Any) -> dict[
     obs = execute(spec, rundir)
     hang = None
     if obs["watchdog"]:
-        # A watchdog alone is a harness problem. It becomes a finding only if it reproduces and the stack dump the
-        # child left behind shows the process sitting in the command / interpreter shutdown, not in harness code.
-        first = obs
-        shutil.rmtree(rundir, ignore_errors=True)
-        obs = execute(spec, rundir)
-        if obs["watchdog"] and obs["started"] and obs["stacks"]:
+        # A watchdog alone is a harness problem. It becomes a finding only if it reproduces and the thread stacks the
+        # child dumped before it was killed show it sitting in the command / interpreter shutdown, not in harness code.
+        hangs = [obs]
+        for _ in range(3):
+            shutil.rmtree(rundir, ignore_errors=True)
+            again = execute(spec, rundir, timeout=RETRY_TIMEOUT)
+            if again["watchdog"]:
+                hangs.append(again)
+                if len(hangs) >= 2:
+                    break
+        blamed = [h for h in hangs if hang_blame(h) == "command"]
+        if len(hangs) >= 2 and len(blamed) >= 2:
+            obs = blamed[-1]
             where = "after-entry-point-returned" if obs["returned"] is not None or obs["escaped"] is not None else "in-entry-point"
-            hang = (f"process/hangs/{where}", f"the command process does not terminate within {CHILD_TIMEOUT}s (reproduced twice; "
+            hang = (f"process/hangs/{where}", f"the command process does not terminate (watchdog {CHILD_TIMEOUT}s/{RETRY_TIMEOUT}s, reproduced; "
                     f"last lifecycle event {(obs['events'] or ['-'])[-1]!r}; thread stacks in the witness)")
         else:
             with lock:
                 ctx.reach("harness.watchdog")
-            return {"spec": spec, "obs": summarize(first), "retry_hung": obs["watchdog"]}
+            s0 = summarize(obs)
+            s0["stacks"] = obs["stacks"]
+            return {"spec": spec, "obs": s0, "hangs_in_attempts": len(hangs), "blamed_on_command": len(blamed)}
     with lock:
         nontrivial = not (spec["exit"] == "return" and spec["pre"] == spec["post"] == "none" and not (spec["art"] or spec["db"] or spec["lock"]))
         ctx.case(case_ident(spec), nontrivial=nontrivial)
@@ -1038,7 +1065,7 @@ def run(ctx: Any, params: dict[str, Any]) -> None:
     if hung:
         raise RuntimeError(
             f"{len(hung)} child process(es) exceeded the {CHILD_TIMEOUT}s watchdog (harness problem until reproduced): "
-            + json.dumps([h["spec"] for h in hung[:3]]) + " stderr tail: " + hung[0]["obs"]["stderr_tail"][-600:]
+            + json.dumps([{k: v for k, v in h.items() if k != "obs"} for h in hung[:3]]) + " stacks: " + (hung[0]["obs"].get("stacks") or "")[-1200:]
         )
 
 
